@@ -3,6 +3,7 @@ package charset
 import (
 	"bytes"
 	"encoding/xml"
+	"io"
 	"strings"
 	"unicode/utf8"
 
@@ -148,6 +149,12 @@ func FromXML(content []byte) string {
 func fromXML(content []byte) string {
 	content = trimLWS(content)
 	dec := xml.NewDecoder(bytes.NewReader(content))
+	// Without a CharsetReader the decoder refuses any declaration naming an
+	// encoding other than UTF-8. Only the declaration is read here, so the
+	// input can be passed through undecoded.
+	dec.CharsetReader = func(_ string, input io.Reader) (io.Reader, error) {
+		return input, nil
+	}
 	rawT, err := dec.RawToken()
 	if err != nil {
 		return ""
